@@ -123,7 +123,7 @@ pub fn valid_zone_id(id: &str, known: &dyn Fn(&str) -> bool) -> bool {
 }
 
 /// Time literal hh:mm:ss(.f+)? followed by nothing, Z, +hh:mm(:ss)?, -hh:mm(:ss)? or @Zone/Id.
-/// Returns Err(true) for "unspecified" spellings (offset minutes/seconds of 60 and above).
+/// Returns Err(true) for "unspecified" spellings, Err(false) for invalid ones (offset minutes / seconds of 60 and above are invalid).
 pub fn parse_time(t: &str, known_zone: &dyn Fn(&str) -> bool) -> Result<RTime, bool> {
   let b = t.as_bytes();
   if b.len() < 8 || b[2] != b':' || b[5] != b':' {
@@ -179,7 +179,7 @@ pub fn parse_time(t: &str, known_zone: &dyn Fn(&str) -> bool) -> Result<RTime, b
       return Err(false);
     }
     if om > 59 || os > 59 {
-      return Err(true);
+      return Err(false);
     }
     let secs = oh * 3600 + om * 60 + os;
     if secs == 0 {
